@@ -122,7 +122,7 @@ def batching_focus(tier="quick"):
     and about every second emission without metadata (member order vs. metadata order needs an
     unlabelled member between labelled ones)"""
     return mdcommon.md_case(tier, faults=False, first=sorted(MULTI), max_nodes=2, max_actions=30,
-                            modes=("sync", "sync", "fut"), md_values=(0, 0, 1, 1, 2),
+                            modes=("sync", "sync", "fut"), md_values=(0, 0, 1, 1, 2, 4),
                             min_actions=8)
 
 
